@@ -312,7 +312,7 @@ inline std::string crashKey(const std::string& stderrText, int sig){
 
 // body(rep, progress): explores the slice, calling progress.begin(case) before each case
 inline int supervise(const Args& args, const std::string& property, const std::function<void(Report&, Progress&)>& body,
-                     const double hangSeconds = 30, const int maxRestarts = 40){
+                     const double hangSeconds = 120, const int maxRestarts = 40){
     SharedProgress* sh = static_cast<SharedProgress*>(mmap(nullptr, sizeof(SharedProgress), PROT_READ|PROT_WRITE, MAP_SHARED|MAP_ANONYMOUS, -1, 0));
     std::memset((void*)sh, 0, sizeof(SharedProgress));
     Report total; total.property = property; total.deadlineSeconds = args.deadline;
